@@ -587,6 +587,9 @@ class UDPDeviceManagementConnection(_DeviceManagementConnection):
             if acknowledged:
                 self.sequence_number = self.sequence_number + 1 & 0xFF
                 return
+            if self.communication_channel is None:
+                # closed while waiting for the acknowledgement - nothing to repeat on
+                raise CommunicationError("Device management connection was closed.")
             logger.debug(
                 "DeviceConfigurationRequest was not acknowledged (attempt %s of %s%s).",
                 attempt + 1,
